@@ -1,9 +1,10 @@
 (** Extraction of the C06 models (ExtrOcamlBasic only): the specification decoder. *)
 From Coq Require Import ZArith List.
 From Coq Require Import ExtrOcamlBasic.
-From Webp Require Vp8.Vp8Spec.
+From Webp Require Vp8.Vp8Spec Vp8.Vp8SynParse Vp8.Vp8NoDrift.
 
 Separate Extraction
   BinInt.Z.add BinInt.Z.mul BinInt.Z.sub BinInt.Z.opp BinInt.Z.div BinInt.Z.modulo
   BinInt.Z.eqb BinInt.Z.ltb BinInt.Z.leb BinInt.Z.of_nat BinInt.Z.to_nat BinInt.Z.of_N BinInt.Z.to_N
-  Vp8.Vp8Spec.decode Vp8.Vp8Spec.decode_go Vp8.Vp8Spec.decode_unfiltered.
+  Vp8.Vp8Spec.decode Vp8.Vp8Spec.decode_go Vp8.Vp8Spec.decode_unfiltered Vp8.Vp8Spec.rfc_quirks
+  Vp8.Vp8SynParse.reemit Vp8.Vp8SynParse.parse_syntax Vp8.Vp8NoDrift.enc_frame.
